@@ -82,6 +82,8 @@ def ev(S, F, x, asg, tabs=None):
         if pl[0] in ("field", "deref", "param", "lv", "local"):
             return ev(S, F, pl, asg, tabs)
         raise Unknown(sym.fmt(n(x)))
+    if k == "bytes":
+        return ("bytes", x[1])
     if k == "table":
         return ("tab", x[1])
     if k == "index" and x[1][0] == "table":
@@ -332,6 +334,8 @@ def ev(S, F, x, asg, tabs=None):
             return ("Err", ev(S, F, x[2][0], asg, tabs))
         if x[1] == "tuple":
             return tuple(ev(S, F, y, asg, tabs) for y in x[2])
+        if x[1] in ("array", "adt:array") and asg.get("symbolic"):
+            return ("array",) + tuple(ev(S, F, y, asg, tabs) for y in x[2])
         if x[1].startswith("closure:"):
             return ("closure", x[1][len("closure:"):], tuple(ev(S, F, y, asg, tabs) for y in x[2]))
         if asg.get("symbolic") and x[1].startswith("adt:"):
